@@ -61,12 +61,14 @@ fn both(out: &mut Vec<Req>, op: &str, args: &str, cls: &str) {
 /// (`.f4`) and, unsuppressed, with the spec carrying exactly that one deviation (`.f4dev`).
 fn emit_resolve(out: &mut Vec<Req>, rng: &mut Rng, sc: &sr::Scenario, cls: &str) {
     let args = format!("{} {} {}", sc.ver, rng.below(8), sc.payload());
-    out.push(Req::new(format!("c07.resolve {args}"), format!("{cls}.model")));
+    let shape = sr::shape(sc);
     if sr::f4_affected(sc) {
-        out.push(Req::new(format!("c07.resolvespec.f4 {args}"), format!("{cls}-f4.spec")));
-        out.push(Req::new(format!("c07.resolvespec.f4dev {args}"), format!("{cls}-f4.devspec")));
+        out.push(Req::new(format!("c07.resolve {args}"), format!("{cls}-f4{shape}.model")));
+        out.push(Req::new(format!("c07.resolvespec.f4 {args}"), format!("{cls}-f4{shape}.spec")));
+        out.push(Req::new(format!("c07.resolvespec.f4dev {args}"), format!("{cls}-f4{shape}.devspec")));
     } else {
-        out.push(Req::new(format!("c07.resolvespec {args}"), format!("{cls}.spec")));
+        out.push(Req::new(format!("c07.resolve {args}"), format!("{cls}{shape}.model")));
+        out.push(Req::new(format!("c07.resolvespec {args}"), format!("{cls}{shape}.spec")));
     }
 }
 
